@@ -8,7 +8,9 @@ stateless ICU4X calls made with those expected options.
 """
 import json, os
 HERE = os.path.dirname(os.path.abspath(__file__))
-LOCALES = ["en", "fr", "de", "ja", "ar", "ru", "pt", "pt-PT", "th"]
+# es-MX inherits es-419, which inherits es (see Cargo.toml): a two-link chain that does not end at the default locale
+LOCALES = ["en", "fr", "de", "ja", "ar", "ru", "pt", "pt-PT", "th", "es", "es-419", "es-MX"]
+ES_CHAIN = ["es", "es-419", "es-MX"]
 
 keys = []  # (name, formatter_text, kind, expected tuple)
 
@@ -71,6 +73,13 @@ for ty, tye in [(None, "Unit"), ("and", "And"), ("or", "Or"), ("unit", "Unit")]:
 add("list", "list(list_type: bogus; list_style: bogus)", ("Unit", "Wide"))
 add("list", "list( list_style :narrow ;list_type: or )", ("Or", "Narrow"))
 
+# ---- whitespace that is not ASCII (French typography puts a no-break space before `:` and `;`)
+add("num", "number(grouping_strategy\u00a0: never)", ("Never",))
+add("num", "number(grouping_strategy:\u202falways\u00a0)", ("Always",))
+add("date", "date(\u3000date_length\u2003:\u00a0full\u3000)", ("Full",))
+add("list", "list(list_type\u00a0: or\u00a0; list_style\u00a0: short)", ("Or", "Short"))
+add("cur", "currency(width\u00a0: narrow\u00a0;\u00a0currency_code\u00a0: EUR)", ("Narrow", "EUR"))
+
 # ---- keys declared only in the default locale: every other locale defaults to it, and the value must still be
 # formatted for the locale being rendered
 N_DECLARED_EVERYWHERE = len(keys)
@@ -80,6 +89,18 @@ add("date", "date(date_length: long)", ("Long",))
 add("time", "time(time_length: medium)", ("Medium",))
 add("dt", "datetime(date_length: short; time_length: short)", ("Short", "Short"))
 add("list", "list(list_type: and; list_style: wide)", ("And", "Wide"))
+
+# ---- keys declared in `en` and, with OTHER options, in `es`; missing in es-419 and es-MX, which must show what `es`
+# declares (its text and its options), formatted for themselves; every other locale defaults to `en`
+N_BEFORE_INHERITED = len(keys)
+INHERITED_ES = {}
+def add_inh(kind, text_en, exp_en, text_es, exp_es):
+    add(kind, text_en, exp_en)
+    INHERITED_ES[len(keys) - 1] = (text_es, exp_es)
+add_inh("num", "number(grouping_strategy: always)", ("Always",), "number(grouping_strategy: never)", ("Never",))
+add_inh("date", "date(date_length: short)", ("Short",), "date(date_length: long)", ("Long",))
+add_inh("list", "list(list_type: and)", ("And", "Wide"), "list(list_type: or)", ("Or", "Wide"))
+add_inh("cur", "currency(width: short; currency_code: USD)", ("Short", "USD"), "currency(width: narrow; currency_code: EUR)", ("Narrow", "EUR"))
 
 FORMS = ["zero", "one", "two", "few", "many", "other"]
 
@@ -96,8 +117,11 @@ TYPED = [
 def locale_file(loc):
     d = {}
     for i, (name, text, kind, exp) in enumerate(keys):
+        if i in INHERITED_ES and loc == "es":
+            d[name] = f"es|{{{{ v, {INHERITED_ES[i][0]} }}}}"
+            continue
         if i >= N_DECLARED_EVERYWHERE and loc != "en":
-            continue  # defaulted to en
+            continue  # defaulted to en (or, for the es chain, inherited)
         d[name] = f"{loc}|{{{{ v, {text} }}}}"
     for f in FORMS:
         d[f"pl_card_{f}"] = f"{loc}|{f}|{{{{ count }}}}"
@@ -126,11 +150,11 @@ out.append("use crate::fixture::{Cw, Gs, Len, Ls, Lt, Spec, Val};")
 out.append("use crate::i18n::*;")
 out.append("use leptos_i18n::formatting::*;")
 out.append("")
-out.append("pub struct KeySpec { pub name: &'static str, pub text: &'static str, pub spec: Spec, pub only_in_default: bool }")
+out.append("pub struct KeySpec { pub name: &'static str, pub text: &'static str, pub spec: Spec, pub only_in_default: bool, pub es_spec: Option<Spec> }")
 out.append("")
 out.append("pub const KEYS: &[KeySpec] = &[")
 for i, (name, text, kind, exp) in enumerate(keys):
-    out.append(f"    KeySpec {{ name: {json.dumps(name)}, text: {json.dumps(text)}, spec: {spec(kind, exp)}, only_in_default: {'true' if i >= N_DECLARED_EVERYWHERE else 'false'} }},")
+    out.append(f"    KeySpec {{ name: {json.dumps(name)}, text: {json.dumps(text, ensure_ascii=False)}, spec: {spec(kind, exp)}, only_in_default: {'true' if i >= N_DECLARED_EVERYWHERE else 'false'}, es_spec: {('Some(' + spec(kind, INHERITED_ES[i][1]) + ')') if i in INHERITED_ES else 'None'} }},")
 out.append("];")
 out.append("")
 out.append("/// route 1: `td_string!` on a fixture key (parser -> macro -> format_*_to_formatter)")
